@@ -5,7 +5,7 @@ demo with the change (must fail) and on the pristine tree (must pass); the given
 import json, os, shutil, subprocess, sys, tempfile
 VERIF = os.path.dirname(os.path.dirname(os.path.abspath(__file__)))
 args = [a for a in sys.argv[1:] if not a.startswith('--')]
-wt, name, checks = args[0], args[1], args[2:]
+wt, name, checks = os.path.abspath(args[0]), args[1], args[2:]
 sd = os.path.join(wt, '_seed') if os.path.isdir(os.path.join(wt, '_seed')) else wt   # a scratch worktree, or a filed seeded/<name> directory
 patch = os.path.join(sd, 'patch.diff')
 demo = next((os.path.join(sd, f) for f in ('demo.py', 'test_demo.py') if os.path.exists(os.path.join(sd, f))), None)
